@@ -273,6 +273,72 @@ fn sweep(ctx: &Ctx, ln: u32, sp: &Space, cfgs: &[u8], b: &Bounds, max_total_len:
     });
 }
 
+/// Layer S: stretched inputs (size thresholds) under uniform piece sizes around powers of two and
+/// every single cut (all positions for inputs up to `all_cuts` bytes; beyond that every position
+/// within 3 bytes of a place where the byte pattern changes, of a power of two, and of the ends).
+fn stretch_sweep(ctx: &Ctx, ln: u32, st: &Stretch, cfgs: &[u8], all_cuts: usize, pieces: &[usize]) {
+    let seed = ctx.seed;
+    let mut desc = st.desc.clone();
+    desc["schedules"] = json!(format!(
+        "uniform pieces {:?}; every single cut for len<={}, beyond: every cut within 3 bytes of a pattern change, a power of two or an end; buffered + async, <=1 Pending on the uniform schedules with <= 40 refills",
+        pieces, all_cuts
+    ));
+    let chk = Checker { seed, ln, cfgs, pend_bound: 1 };
+    ctx.layer("S.stretch", ln, st.total(), desc, |i, acc| {
+        let mut input = Vec::new();
+        let mut marks = Vec::new();
+        st.get(i, &mut input, Some(&mut marks));
+        let refs: Vec<Vec<Obs>> = cfgs
+            .iter()
+            .map(|&c| {
+                let mut v = Vec::new();
+                run_slice(&input, c, 2, &mut v);
+                mask_after_fatal(&mut v);
+                v
+            })
+            .collect();
+        let (spans, off) = markup_spans(&input);
+        let n = input.len();
+        for &p in pieces {
+            if n / p > 20_000 {
+                continue;
+            }
+            chk.one(acc, i, &input, &refs, &spans, &Script::pieces(p), n / p <= 40, off);
+        }
+        if n <= 1 {
+            return;
+        }
+        let mut cuts: Vec<usize> = Vec::new();
+        if n <= all_cuts {
+            cuts.extend(1..n);
+        } else {
+            let mut near = |c: usize| {
+                for d in c.saturating_sub(3)..=c + 3 {
+                    if d >= 1 && d < n {
+                        cuts.push(d);
+                    }
+                }
+            };
+            near(0);
+            near(n);
+            for &m in &marks {
+                near(m);
+            }
+            let mut p2 = 8;
+            while p2 < n {
+                near(p2);
+                p2 *= 2;
+            }
+            cuts.sort();
+            cuts.dedup();
+        }
+        for c in cuts {
+            chk.one(acc, i, &input, &refs, &spans, &Script::cuts(&[c]), false, off);
+        }
+        acc.sample(seed, i ^ ((ln as u64) << 40), || json!({"layer": "S.stretch", "input_len": n, "input_head": lossy(&input[..n.min(60)])}));
+    });
+}
+
 /// Scanner carry state driven directly: feeding a string in up to three pieces must find the
 /// same end index as feeding it whole.
 fn parser_layer(ctx: &Ctx, ln: u32, tier: Tier) {
@@ -572,6 +638,15 @@ pub fn run(ctx: &Ctx) {
     sweep(ctx, ln, &context("Init.bom", &[b"", b"\xEF\xBB", b"\xEF\xBB\xBF", b"\xEF\xBB\xBF\xEF\xBB\xBF"], b"<?xml >a", t.pick(4, 5), &[b""], false), &cfgs, &b, 64);
     ln += 1;
     sweep(ctx, ln, &mid_bom(t.pick(2, 3)), &cfgs, &b, 64);
+    ln += 1;
+    stretch_sweep(
+        ctx,
+        ln,
+        &Stretch::new(STRETCH_READER, t.pick(8, 40), t.pick(8, 13), t.pick(3, 6)),
+        t.pick(&[DEFAULT, NEUTRAL | TRIM_START | TRIM_END][..], &cfgs[..]),
+        t.pick(48, 600),
+        t.pick(&[1usize, 7, 64, 256][..], &[1usize, 2, 3, 7, 16, 63, 64, 65, 255, 256, 1000, 4096, 8192][..]),
+    );
     ln += 1;
     parser_layer(ctx, ln, t);
     ln += 1;
